@@ -60,12 +60,15 @@ structure Quirks where
   valDiffNoDeleteAnchor : Bool
   /-- F17: `lyd_is_default` compares a leaf-list instance with any single default -/
   isDefaultAnyOne : Bool
+  /-- F179 (b): `lyd_validate_autodel_case_dflt` records the removal of a leftover default non-presence container through its
+  children only (`np_cont_diff = 0`), not the container itself -/
+  caseDfltNpViaKids : Bool := false
   deriving Repr, BEq, DecidableEq, Inhabited
 
 def Quirks.current : Quirks :=
   { uniqueDefaultAlways := Generated.uniqueDefaultAlways, implicitInnerCase := Generated.implicitInnerCase,
     autodelDirectCase := Generated.autodelDirectCase, valDiffNoDeleteAnchor := Generated.valDiffNoDeleteAnchor,
-    isDefaultAnyOne := Generated.isDefaultAnyOne }
+    isDefaultAnyOne := Generated.isDefaultAnyOne, caseDfltNpViaKids := Generated.caseDfltNpViaKids }
 
 def Quirks.fixed : Quirks :=
   { uniqueDefaultAlways := false, implicitInnerCase := false, autodelDirectCase := false, valDiffNoDeleteAnchor := false,
